@@ -204,7 +204,7 @@ C09_V(S, S2, c, e, r) ==
            exp == live /\ Expired(S.sess[b], c, S.now)
        IN
        (IF exp /\ e.act = "Probe"
-        THEN V("C09.servedUnauthenticated", ~r.ran /\ r.seenUser = NONE)
+        THEN V("C09.servedUnauthenticated", (e.k # "bare" => ~r.ran) /\ r.seenUser = NONE)
         ELSE {})
        \cup (IF exp /\ Flushed(r) /\ e.act \notin InteractiveLogins \cup {"RegisterPost", "OAuthStart"}
              THEN V("C09.expiredWiped", \A k \in SessKeys \ WL(c) : S2.sess[b][k] = EmptySess[k])
@@ -214,7 +214,8 @@ C09_V(S, S2, c, e, r) ==
              THEN V("C09.liveRefreshed", S2.sess[b].lastAct = S2.now) ELSE {})
        \cup (IF e.act \in StampingLogins /\ Changed(S, S2, b, "uid") /\ S2.sess[b].uid # NONE
              THEN V("C09.loginStamps", S2.sess[b].lastAct = S2.now) ELSE {})
-       \cup (IF e.act = "Probe" /\ r.ran
+       \* (the /bare route has no authentication requirement of its own: it may run for anybody)
+       \cup (IF e.act = "Probe" /\ r.ran /\ e.k # "bare"
              THEN V("C09.ranOnlyIfLive", live /\ ~exp) ELSE {})
 
 -----------------------------------------------------------------------------
